@@ -33,7 +33,7 @@ class Job:
                  config='le', loop_contracts=None, owners=None, clause_map=None,
                  timeout=600, solver=None, extra_cbmc=(), extra_cc=(), canary=True,
                  function=None, kind='', replay=None, bounded=None, includes=(), ignore_funcs=(),
-                 assumptions=(), unwindset=None, no_dfcc=False, obj_bits=None):
+                 assumptions=(), unwindset=None, no_dfcc=False, obj_bits=None, chunk=None, chunk_par=1):
         self.name = name
         self.src = src                  # text of the harness translation unit
         self.sources = list(sources)    # repository sources (relative to REPO) compiled in unmodified
@@ -59,6 +59,8 @@ class Job:
         self.unwindset = unwindset
         self.no_dfcc = no_dfcc          # plain harness with assertions only (pure spec lemmas)
         self.obj_bits = obj_bits
+        self.chunk_par = chunk_par
+        self.chunk = chunk              # solve the CBMC properties in groups of this size with --slice-formula
 
     def ident(self):
         return re.sub(r'[^A-Za-z0-9_.-]', '_', self.name + '__' + self.config)
@@ -160,15 +162,58 @@ def expand_loop_contract(template, incdirs):
     return d
 
 
-def symbol_map(symtab_text, func, names):
-    syms = re.findall(r'^Symbol\.*: (\S+)$', symtab_text, re.M)
+def symbol_map(symtab_text, func, names, line_range=None):
+    """Resolve base names of locals/parameters of `func` in the goto symbol table.  When a
+    base name is declared several times (one `i` per loop) the declaration inside
+    `line_range` is chosen."""
+    entries = []
+    for blk in symtab_text.split('\n\n'):
+        m = re.search(r'^Symbol\.*: (\S+)$', blk, re.M)
+        if not m:
+            continue
+        lm = re.search(r'^Location\.*: .*line (\d+)', blk, re.M)
+        entries.append((m.group(1), int(lm.group(1)) if lm else None))
     res = []
     for n in names:
-        c = [s for s in syms if s.startswith(func + '::') and s.split('::')[-1] == n]
+        c = [(s, l) for s, l in entries if s.startswith(func + '::') and s.split('::')[-1] == n]
+        if len(c) > 1 and line_range:
+            c = [(s, l) for s, l in c if l is not None and line_range[0] <= l <= line_range[1]]
         if len(c) != 1:
             return None, 'local %r of %s not found uniquely (%d candidates)' % (n, func, len(c))
-        res.append('%s,%s' % (n, c[0]))
+        res.append('%s,%s' % (n, c[0][0]))
     return ';'.join(res), None
+
+
+def locate_case_arm(src_path, func, label):
+    """Line range (L1, L2) of the `case <label>:` arm inside function `func` of a C source."""
+    lines = open(src_path).read().split('\n')
+    start = None
+    for i, l in enumerate(lines, 1):
+        if re.match(r'^\w[\w\s\*]*\b%s\s*\(' % re.escape(func), l):
+            start = i
+            break
+    if start is None:
+        return None
+    l1 = None
+    for i in range(start, len(lines) + 1):
+        l = lines[i - 1]
+        if l1 is None:
+            if re.search(r'\bcase\s+%s\s*:' % re.escape(label), l):
+                l1 = i
+        elif re.search(r'\bcase\s+\w+\s*:|\bdefault\s*:', l):
+            return (l1, i - 1)
+        if i > start and re.match(r'^}', l):
+            break
+    return None
+
+
+def loops_of(show_loops_text, func):
+    """[(loop_number, line)] of the loops of `func` from goto-instrument --show-loops."""
+    out = []
+    for m in re.finditer(r'^Loop (\S+)\.(\d+):\n\s+file (\S+) line (\d+) function (\S+)', show_loops_text, re.M):
+        if m.group(1) == func:
+            out.append((int(m.group(2)), int(m.group(4))))
+    return out
 
 
 def run_job(job, workroot, keep=False):
@@ -210,7 +255,17 @@ def run_job(job, workroot, keep=False):
                 entries = []
                 for lc in lcs:
                     d = expand_loop_contract(lc['template'], [os.path.join(VERIF, 'spec'), os.path.join(VERIF, 'loops')])
-                    sm, e = symbol_map(st, func, lc['symbols'])
+                    rng = None
+                    if lc.get('case_label'):
+                        rng = locate_case_arm(os.path.join(REPO, lc['src']), func, lc['case_label'])
+                        rc2, sl, _ = _run(['goto-instrument', '--show-loops', a_gb], wd, 120, res.cmds)
+                        cand = [n for n, ln in loops_of(sl, func) if rng and rng[0] <= ln <= rng[1]]
+                        if len(cand) != 1:
+                            res.reason = 'loop of %s in arm %s not located uniquely (%s)' % (func, lc['case_label'], cand)
+                            res.wall = time.time() - t0
+                            return res
+                        lc = dict(lc, loop_id=cand[0])
+                    sm, e = symbol_map(st, func, lc['symbols'], rng)
                     if sm is None:
                         res.reason = 'loop contract for %s cannot be attached: %s' % (func, e)
                         res.wall = time.time() - t0
@@ -259,19 +314,81 @@ def run_job(job, workroot, keep=False):
         cb += ['--external-sat-solver', 'kissat']
     elif job.solver == 'cadical':
         cb += ['--sat-solver', 'cadical']
-    rc, out, err = _run(cb, wd, job.timeout, res.cmds)
-    res.wall = time.time() - t0
-    if rc == -999:
+    results = None
+    if job.chunk:
+        # property list first, then one sliced run per group of properties
+        rc, out, err = _run(cb + ['--show-properties'], wd, 300, res.cmds)
+        try:
+            plist = []
+            for m in json.loads(out):
+                if isinstance(m, dict) and 'properties' in m:
+                    plist = [p['name'] for p in m['properties']]
+        except Exception:
+            plist = []
+        if not plist:
+            res.reason = 'cannot list properties for chunked solving: %s' % (out or err)[-400:]
+            res.wall = time.time() - t0
+            return res
+        results = []
+        groups = [plist[i:i + job.chunk] for i in range(0, len(plist), job.chunk)]
+        deadline = t0 + job.timeout
+
+        def solve_group(g):
+            args = []
+            for pn in g:
+                args += ['--property', pn]
+            left = max(10, deadline - time.time())
+            log = []
+            rc, out, err = _run(cb + ['--slice-formula'] + args, wd, left, log)
+            return g, rc, out, err, log
+        with concurrent.futures.ThreadPoolExecutor(max_workers=max(1, job.chunk_par)) as ex:
+            outs = list(ex.map(solve_group, groups))
+        for g, rc, out, err, log in outs:
+            res.cmds.append({'cmd': 'cbmc --slice-formula <%d properties>' % len(g), 'rc': rc, 's': log[0]['s'] if log else None})
+            if rc == -999:
+                res.reason = 'cbmc timeout after %ss (chunked)' % job.timeout
+                res.wall = time.time() - t0
+                return res
+            try:
+                msgs = json.loads(out)
+            except Exception:
+                res.reason = 'cbmc output unparsable (chunk, rc=%s): %s' % (rc, (out or err)[-800:])
+                res.wall = time.time() - t0
+                return res
+            got = None
+            for m in msgs:
+                if isinstance(m, dict):
+                    if 'result' in m:
+                        got = m['result']
+                    t = m.get('messageText', '') if m.get('messageType') else ''
+                    mm = re.search(r'Runtime decision procedure: ([0-9.]+)s', t)
+                    if mm:
+                        res.solver_s += float(mm.group(1))
+                    if m.get('messageType') == 'ERROR':
+                        res.warnings.append('cbmc: ' + t.strip()[:300])
+            if got is None:
+                res.reason = 'cbmc produced no result list for a chunk (rc=%s): %s' % (rc, ' | '.join(res.warnings)[-600:] or (err or '')[-300:])
+                res.wall = time.time() - t0
+                return res
+            gs = set(g)
+            results.extend([r for r in got if r.get('property') in gs])
+        res.wall = time.time() - t0
+        if len(results) != len(plist):
+            res.reason = 'chunked solving lost properties (%d of %d)' % (len(results), len(plist))
+            return res
+    else:
+      rc, out, err = _run(cb, wd, job.timeout, res.cmds)
+      res.wall = time.time() - t0
+      if rc == -999:
         res.reason = 'cbmc timeout after %ss' % job.timeout
         return res
-    try:
+      try:
         msgs = json.loads(out)
-    except Exception:
+      except Exception:
         res.reason = 'cbmc output unparsable (rc=%s): %s' % (rc, (out or err)[-800:])
         return res
-    results = None
-    cprover_status = None
-    for m in msgs:
+      cprover_status = None
+      for m in msgs:
         if isinstance(m, dict):
             if 'result' in m:
                 results = m['result']
@@ -289,7 +406,7 @@ def run_job(job, workroot, keep=False):
                 mm = re.search(r'Runtime Solver: ([0-9.]+)s', t)
                 if mm:
                     res.solver_s += float(mm.group(1))
-    if results is None:
+      if results is None:
         res.reason = 'cbmc produced no result list (rc=%s, status=%s): %s' % (
             rc, cprover_status, ' | '.join(res.warnings)[-800:] or (err or '')[-500:])
         return res
